@@ -105,7 +105,7 @@ def c13_nontrivial(c, ms):
 CONFIG = dict(
     modules=["SigModel.Props.C13"],
     theorems=["SigModel.Backends." + t for t in [
-        "C13_reload_eq_fresh", "C13_reload_total", "C13_reload_chain_total", "C13_reload_path_audit", "C13_static_answers_from_final",
+        "C13_reload_eq_fresh", "C13_reload_raw_eq_fresh", "C13_reload_total", "C13_reload_chain_total", "C13_reload_path_audit", "C13_static_answers_from_final",
         "C13_static_configured_accepted", "C13_legacy_upsert_panics", "C13_legacy_order_differs",
         "C13_etcd_eq_fresh", "C13_etcd_eq_fresh_sorted", "C13_etcd_answers_from_final",
         "C13_etcd_deleted_not_accepted", "C13_etcd_moved_not_accepted",
